@@ -2,3 +2,19 @@ claim("C18",
  "Bounded symbolic model checking of the real identifier codecs: for every value of every field (64-bit heights and indices, 29-byte namespaces; square width up to 2x the protocol maximum) the solver shows constructor-accepted ids are in-square, encode to the fixed size and decode to an equal id with unaltered fields, and for every byte string of length size-1..size+1 the decoder either refuses or yields a valid id whose re-encoding is the input. Tests sample a handful of ids; the wrap-around of a 16-bit field at 65536 is exactly the kind of point they miss and the solver finds.",
  "symbolic execution of go/ssa + SMT (z3 bit-vectors, cvc5 int fallback), all paths per harness, native replay of counterexamples",
  "DESIGN.md 6/C18")
+
+claim("C12",
+ "Bounded symbolic model checking of the proof glue the node owns: blob Proof.equal on two arbitrary proofs (0..2 entries, nil entries, 0..2 nodes, symbolic ranges and bytes) answers nil exactly for structurally equal proofs and never panics; GetRangeResult.Verify on arbitrary results (missing proof, 0..3 data entries of 511..513 symbolic bytes) answers nil only when the shares handed out are byte-for-byte the proven data; data-root-tuple proofs for arbitrary 64-bit height/start/end/head pick leaf height-start among exactly end-start leaves whose encoding carries the height in the last 8 of 32 bytes for every 64-bit height. Library proof verification (nmt, merkle, cometbft) is an ideal verdict.",
+ "symbolic execution of go/ssa + SMT over arbitrary proof/result values, ideal verdict stubs for library verification, native replay where no stub is involved",
+ "DESIGN.md 6/C12",
+ "Not covered yet: CommitmentProof.Verify cursor arithmetic and Service.Included's derivation of its own proof.")
+
+claim("C04",
+ "Bounded model checking of the real DASer coordinator loop and workers executed symbolically under a controlled scheduler: from an arbitrary 64-bit starting height, for every sequence of up to 2 events (new head / checkpoint request), every per-height sampling outcome and every schedule within the delay bound, each checkpoint the coordinator hands out covers every height in [start, head] that was not sampled (as catch-up cursor, failed entry or resumable worker), proven pointwise for a free symbolic height by the solver. The in-flight-recent-job loss needs a checkpoint between two coordinator events, which the existing tests never schedule.",
+ "symbolic execution of go/ssa with schedules as decisions (delay-bounded cooperative scheduler) + SMT for the pointwise coverage formula",
+ "DESIGN.md 6/C04")
+
+claim("C13",
+ "Bounded model checking of the real coordinator/worker code at quiescence: every started job has reported, catch-up-done holds exactly when nothing is queued, in flight or failed (including right after resume), every height is sampled or recorded failed, statistics agree with the ghost record of sampled heights, worker counts respect limit / 2x limit, and the back-off attempt count increases by one with a delay that saturates at the last interval for every attempt count 0..8 and every instant.",
+ "symbolic execution of go/ssa with schedules as decisions + SMT; unbounded liveness replaced by bounded quiescence statements",
+ "DESIGN.md 6/C13")
